@@ -80,17 +80,21 @@ def patPropose (cfg : PatCfg) (s : PatSt) : Except Err (Pos × List Pos × Tape)
       | .error e => .error e
       | .ok a => .ok (a.1, s.pattern, a.2)
     else
-      match s.pattern with
-      | [] => .error .indexError                     -- `self.pattern_pos_l[0]` of an empty list
-      | p :: ps =>
-        match askFeas p rest with
-        | .error e => .error e
-        | .ok a =>
-          if a.1 then .ok (p, ps, a.2)
-          else
-            match moveClimb cfg.geo (some p) (some 1) s.tape.length a.2 with
-            | .error e => .error e
-            | .ok b => .ok (b.1, ps, b.2)
+      -- (after fix) an exhausted list is regenerated around the current position before the next entry is taken
+      match (if s.pattern = [] then generatePattern cfg s.tr.posCurrent rest else .ok (s.pattern, rest)) with
+      | .error e => .error e
+      | .ok g =>
+        match g.1 with
+        | [] => .error .indexError                   -- `self.pattern_pos_l[0]` of a list that is still empty (`n_positions = 0`)
+        | p :: ps =>
+          match askFeas p g.2 with
+          | .error e => .error e
+          | .ok a =>
+            if a.1 then .ok (p, ps, a.2)
+            else
+              match moveClimb cfg.geo (some p) (some 1) s.tape.length a.2 with
+              | .error e => .error e
+              | .ok b => .ok (b.1, ps, b.2)
   | [] => .error .needMore
   | _ => .error (protocol "random_iteration")
 
